@@ -256,6 +256,10 @@ func (h *hist) flip() {
 	c, su, b := h.pickBackend("flip")
 	b.Up = !b.Up
 	if rb := h.main.realBackend(c.Name, su.Name, b.AddrInfo()); rb != nil {
+		if b.Up && h.tp.Chance(1, 2, "flip.restart") {
+			rb.SetRestart(true) // what the health checker does when it brings a backend back
+			h.s.Probe("restart_mark")
+		}
 		rb.SetAvail(b.Up)
 		if b.Up && h.fails != nil {
 			delete(h.fails, ident{c.Name, su.Name, b.AddrInfo()})
@@ -305,13 +309,19 @@ func (h *hist) mutate(o genOpts) string {
 	case 0: // change a backend weight
 		b := su.Backends[tp.Draw(len(su.Backends), "mut.b")]
 		b.Weight = tp.Range(1, o.maxWeight, "mut.weight")
+		if o.zeroWeights && tp.Chance(1, 4, "mut.zero") {
+			// weight 0 = administratively disabled; the loader wants one positive weight per sub-cluster
+			for _, x := range su.Backends {
+				if x != b && x.Weight > 0 {
+					b.Weight = 0
+					break
+				}
+			}
+		}
 		return fmt.Sprintf("weight %s=%d", b.AddrInfo(), b.Weight)
 	case 1: // add a backend
 		if len(su.Backends) < o.maxBackends+2 {
 			b := genBackend(tp, o, 9, len(c.Subs), len(su.Backends))
-			if b.Weight == 0 {
-				b.Weight = 1
-			}
 			su.Backends = append(su.Backends, b)
 			if g := h.t.conf[c.Name]; g.SlowStart > 0 {
 				h.rampTill[b.AddrInfo()] = time.Now().Add(time.Duration(g.SlowStart+1) * time.Second).Add(365 * 24 * time.Hour) // ramp starts at first selection; refined in selectOnce? keep conservative
